@@ -65,7 +65,11 @@ class IndexState:
             self.bounds.append(b)
         c01.classify(cc, init, model)
         cc.sample(c01.summary(init, model))
-        _sul, seq = c01.read_sequential(File, data)
+        try:
+            _sul, seq = c01.read_sequential(File, data)
+        except c01.RecordsChanged:
+            cc.dev('sequential==model', 'sequential-read-differs', 'C01 oracle fails on this file (records change after the pass)')
+            _sul, seq = None, []
         self.sequential = [x[2] for x in seq]
         if self.sequential != self.payloads:
             cc.dev('sequential==model', 'sequential-read-differs', 'C01 oracle fails on this file')
